@@ -3,6 +3,7 @@ from ..facts import Program, Inconclusive, op_place
 from ..flow import Ev, walk, resolve_upvars, show, strip
 from ..gate import comparisons, switch_on, edge_dominates, linear, SWAP
 from . import c07
+from ..util import try_continue_block, ok_return_blocks
 
 SUB = "sierradb_cluster::subscription::Subscription::"
 SEND_RECORD = SUB + "send_record"
@@ -47,6 +48,9 @@ def run(chk, facts_dir, tier):
                      "wait_for(|ack| gap <= window_size) with gap = cursor - ack (cursor+1 before the first ack) and is followed by cursor += 1")
     chk.rule("R9.4", "LIVE: in run, send_record is dominated by the false edge of has_seen and followed by update_state with that "
                      "record's five fields; has_seen compares with `<` only and update_state stores `+ 1` only")
+    chk.rule("R9.6", "HISTORY CURSOR: in the history readers every store to the resume cursor (`*from_sequence` / `*from_version`) is `x + 1` where x is the partition sequence / "
+                     "stream version of the event handed to the send_record that precedes it, and every send_record is followed by such a store before the next event is taken; "
+                     "the live filter has_seen starts at this cursor, so a cursor left inside a delivered transaction delivers its tail twice")
     chk.rule("R9.5", "WHO-MAY send on the event broadcast channel: the confirmation actor's gated loops (C07 R7.2) and "
                      "SubscriptionManager::broadcast (which has no caller)")
     chk.not_decided += ["the hand-over race between history and live phases and broadcast lag (schedules)",
@@ -94,6 +98,59 @@ def run(chk, facts_dir, tier):
                     chk.ok("R9.2", "%s: failed gate at L%d leads to no further next_batch on the iterator" % (name, line), b.where(line))
         if found == 0:
             raise Inconclusive("%s: no send_record call found" % name)
+
+    # ---------------- R9.6 history cursor
+    n_cur = 0
+    for name in HISTORY:
+        root = SUB + name
+        for b in prog.family(root):
+            sends = call_blocks(b, SEND_RECORD)
+            if not sends:
+                continue
+            ev = Ev(prog, b)
+            stores = []
+            for i, j, st in b.assigns():
+                pr = st["lhs"]["p"]
+                if not pr or any(e != "*" for e in pr):
+                    continue
+                ty = b.local_ty(st["lhs"]["l"])
+                if not (ty.replace(" ", "").endswith("mutu64") and ty.strip().startswith("&")):
+                    continue
+                stores.append((i, j, st))
+            if not stores:
+                chk.fail("R9.6", root, "cursor-never-stored", "the history reader sends records but never advances its resume cursor", b, sends[0][1]["line"])
+                continue
+            sent_terms = []
+            for sb_, stt in sends:
+                sent_terms.append((sb_, strip(ev.operand(stt["args"][1], (sb_, "T")))))
+            for i, j, st in stores:
+                n_cur += 1
+                val = ev._rvalue(st["rv"], (i, j), 0) if hasattr(ev, "_rvalue") else None
+                base, off = linear(val)
+                base = strip(base)
+                okf = base[0] == "field" and base[2] in ("partition_sequence", "stream_version") and "EventRecord" in str(base[3])
+                dom = [sb_ for sb_, term in sent_terms if b.dominates(sb_, i)]
+                same = okf and any(strip(base[1]) == term for sb_, term in sent_terms if sb_ in dom)
+                if okf and off == 1 and same:
+                    chk.ok("R9.6", "%s: cursor = sent event.%s + 1" % (name, base[2]), b.where(st["line"]))
+                else:
+                    chk.fail("R9.6", root, "cursor-value", "the resume cursor is set to `%s%+d`, not to the %s of the event just handed to send_record plus one: after a multi-event "
+                             "transaction the cursor points inside (or past) what was delivered and the live phase repeats or skips events" %
+                             (show(base)[:70], off, "sequence/version"), b, st["line"])
+            # every send_record is followed by a cursor store before the loop takes the next event or the function returns Ok
+            store_blocks = frozenset(i for i, j, st in stores)
+            nexts = [bi for bi, t in b.calls() if (b.callee_decl(t) or "").endswith("Iterator::next") or "next_batch" in (b.callee_decl(t) or "")]
+            for sb_, stt in sends:
+                cont = try_continue_block(b, sb_)
+                start = cont if cont is not None else stt.get("target")
+                r = b.reach_from([start], avoid=store_blocks)
+                bad = [x for x in nexts if x in r]
+                okret = [ob for ob, _ in ok_return_blocks(b) if ob in r]
+                if bad or okret:
+                    chk.fail("R9.6", root, "cursor-skipped", "after send_record succeeds the next event can be taken (or Ok returned) without the resume cursor having been advanced", b, stt["line"])
+                else:
+                    chk.ok("R9.6", "%s: every delivered record advances the cursor" % name, b.where(stt["line"]))
+    chk.floor("R9.6", n_cur, 3)
 
     # every caller of send_record is one of the analysed functions or `run`
     allowed_callers = {SUB + n for n in HISTORY} | {SUB + "run"}
